@@ -19,6 +19,7 @@
 (* candidates; the real plz binary carries the verdict.                                                    *)
 EXTENDS Naturals, Sequences, FiniteSets, TLC, Json
 
+FlawRootDirEmpty == FALSE
 CONSTANTS Full,        \* TRUE: adversarial names on the whole table; FALSE: on the reduced table only
           Emit
 VARIABLE c
@@ -107,8 +108,9 @@ Subst(x) ==
   ELSE IF x.ep THEN \* entry point: fileDestination whatever the role - a tool's entry point gets the tmp-relative path
        [res |-> "text", strs |-> <<Str(IF tool THEN "nowhere" ELSE where, "ep", PkgChars(x))>>]
   ELSE IF DirForm(x.seq)
-  THEN \* handleDir: the package (or out) directory; the root package's directory is the empty string
-       IF x.place = "root" /\ where = "tmp" /\ ~tool THEN [res |-> "text", strs |-> <<>>]
+  THEN \* handleDir: the package (or out) directory; the pinned code returned the empty string for the root
+       \* package (FlawRootDirEmpty), repaired by a fix: commit ("." now)
+       IF FlawRootDirEmpty /\ x.place = "root" /\ where = "tmp" /\ ~tool THEN [res |-> "text", strs |-> <<>>]
        ELSE [res |-> "text", strs |-> <<Str(IF tool THEN "abs" ELSE where, "dir", PkgChars(x))>>]
   ELSE [res |-> "text", strs |-> [i \in 1..Len(outs) |-> Str(IF tool THEN "abs" ELSE where, outs[i], PkgChars(x) \cup OutChars(x))]]
 \* quote() wraps a string in double quotes iff it contains one of | & ; ( ) < >
